@@ -21,7 +21,9 @@ ASSUMPTIONS = ["NaN-valued schemas excluded (== cannot be reflexive for nan)",
 REACH_FILES = ['d42/declaration/_props.py', 'd42/validation/__init__.py', 'd42/declaration/types/_optional.py']
 TIERS = {"quick": dict(shards=16, cases=6000), "thorough": dict(shards=16, cases=40000)}
 
-PROF = Profile(max_depth=3, p_unsat=0.02, nonfinite=False, p_value=0.35)
+PROF = Profile(max_depth=3, p_unsat=0.02, nonfinite=False, p_value=0.35, p_any_undeclared=0.4,
+               kinds={"none": 2, "bool": 3, "int": 8, "float": 8, "str": 10, "list": 12, "dict": 9, "any": 8,
+                      "bytes": 2, "uuid4": 2, "datetime": 2, "date": 2, "alias": 3})
 LEAF = Profile(max_depth=0)
 
 
@@ -234,6 +236,8 @@ def blind_norm(spec):
     def rec(n):
         if n == ELL:
             return n
+        if any_like(n):
+            return mk("any")   # every accept-everything schema "equals" a marker through the same fallback
         m = dict(n)
         if m["k"] == "list" and m.get("form") == "typed" and any_like(m["type"]):
             m.pop("type")
